@@ -9,8 +9,9 @@ go build ./... || { echo "RESULT $P $M build-fails"; exit 1; }
 if go test -vet=off -count=1 . ./internal/... ./store/... ./datadictionary/... ./config/... > /tmp/confirm_suite.log 2>&1; then suite=pass; else suite=FAIL; fi
 rundemo() {
   rc=0
-  if [ -f $D/run_demo.sh ]; then
-     mkdir -p $W/_seeded && cp -r $D $W/_seeded/ && (cd $W && sh $W/_seeded/$M/run_demo.sh) > /tmp/confirm_demo.log 2>&1 || rc=1
+  if [ -f $D/run_demo.sh ] || [ -f $D/run.sh ]; then
+     R=run_demo.sh; [ -f $D/run.sh ] && R=run.sh
+     mkdir -p $W/_seeded && cp -r $D $W/_seeded/ && (cd $W && sh $W/_seeded/$M/$R) > /tmp/confirm_demo.log 2>&1 || rc=1
      rm -rf $W/_seeded
   elif [ -d $D/demo ]; then
      mkdir -p $W/_seeded/$M && cp -r $D/demo $W/_seeded/$M/ && (cd $W && go test -vet=off -count=1 ./_seeded/$M/demo/) > /tmp/confirm_demo.log 2>&1 || rc=1
